@@ -27,8 +27,9 @@ package namesys
 //@   assumed
 //@ func IpnsDsKey
 //@   assumed
+//@ spec pathString(p path.Path) string
 //@ func iface github.com/ipfs/boxo/path.Path.String
-//@   pure
+//@   ensures result == pathString(self)
 //@ func iface github.com/ipfs/go-datastore.Datastore.Put
 //@ func iface github.com/ipfs/go-datastore.Datastore.Sync
 
@@ -46,3 +47,20 @@ package namesys
 //@   site[same_value_same_seq] call:NewRecord : res("call:GetPublished#0") != nil && res("call:ProcessPublishOptions#0").Sequence == nil && res("invoke:String#0") == res("invoke:String#1") ==> arg2 == res("call:Sequence#0")
 //@   site[value_compared] invoke:String#0 : arg0 == value
 //@   site[record_value] call:NewRecord : arg1 == value
+
+// ---- resolver cache key consistency -------------------------------------------------
+// resolveOnceAsync looks entries up under the string of the name's /ipns/<name> path
+// (path.NewPathFromSegments("ipns", name) == name.AsPath()); a publish must fill and
+// invalidate the cache under that same key, otherwise a stale entry survives a publish.
+//@ func (*namesys).cacheSet
+//@   assumed
+//@ func (*namesys).cacheInvalidate
+//@   assumed
+//@ func (*namesys).Publish
+//@   prop C29
+//@   arith int
+//@   requires ns != nil
+//@   modifies all
+//@   site[cache_fill_key] call:cacheSet : arg1 == pathString(nameAsPath(ipnsName))
+//@   site[cache_fill_value] call:cacheSet : arg2 == value
+//@   site[cache_invalidate_key] call:cacheInvalidate : arg1 == pathString(nameAsPath(ipnsName))
